@@ -9,6 +9,7 @@ CONSTANTS
   Parts = {0, 1}
   NoConf = NoConf
   Merged = Merged
+  Lookups = FALSE
   Static = FALSE
   PubChoices <- MCDynPubs
 INVARIANT Inv
